@@ -1,4 +1,5 @@
 import PRV.Driver.C19
+import PRV.Driver.C01
 import PRV.Driver.C10
 import PRV.Driver.C20
 import PRV.Driver.C11
@@ -13,6 +14,8 @@ open PRV.Driver
 
 def main (args : List String) : IO UInt32 := do
   match args with
+  | ["model", "c01"] => run C01.machine; return 0
+  | ["monitor", "c01"] => runMonitor C01.monitor; return 0
   | ["model", "c19"] => run (C19.machine false); return 0
   | ["spec", "c19"] => run (C19.machine true); return 0
   | ["model", "c10"] => run C10.machine; return 0
